@@ -178,7 +178,7 @@ impl Sat {
       return Err(ErrorKind::PeriodOffset.error(degree));
     }
 
-    let cycle_start_epoch = cycle_number * CYCLE_EPOCHS;
+    let cycle_start_epoch = cycle_number.checked_mul(CYCLE_EPOCHS);
 
     const HALVING_INCREMENT: u32 = SUBSIDY_HALVING_INTERVAL % DIFFCHANGE_INTERVAL;
 
@@ -192,9 +192,12 @@ impl Sat {
 
     let epochs_since_cycle_start = relationship % DIFFCHANGE_INTERVAL / HALVING_INCREMENT;
 
-    let epoch = cycle_start_epoch + epochs_since_cycle_start;
+    let epoch = cycle_start_epoch.and_then(|epoch| epoch.checked_add(epochs_since_cycle_start));
 
-    let height = Height(epoch * SUBSIDY_HALVING_INTERVAL + epoch_offset);
+    let height = epoch
+      .and_then(|epoch| epoch.checked_mul(SUBSIDY_HALVING_INTERVAL))
+      .and_then(|height| height.checked_add(epoch_offset))
+      .map(Height);
 
     let (block_offset, rest) = match rest.split_once('‴') {
       Some((block_offset, rest)) => (
@@ -209,6 +212,9 @@ impl Sat {
     if !rest.is_empty() {
       return Err(ErrorKind::TrailingCharacters.error(degree));
     }
+
+    // heights beyond `u32::MAX` are long past the last subsidy
+    let height = height.ok_or_else(|| ErrorKind::BlockOffset.error(degree))?;
 
     if block_offset >= height.subsidy() {
       return Err(ErrorKind::BlockOffset.error(degree));
